@@ -463,6 +463,32 @@ def main_check(pid, argv=None):
         # one report per distinct clause, first occurrence (lowest index) first
         unknown.sort(key=lambda rv: (rv[0]["index"]))
         seen = set()
+        leaky = bool(total["mismatches"])
+        if leaky:
+            # process-global state of the code under test leaks between runs of one process: what a run showed may depend on
+            # its predecessors. Screen the recorded scenarios in fresh processes and report the first that reproduces there.
+            by_clause = {}
+            for rec, v in unknown:
+                by_clause.setdefault(v["clause"], []).append((rec, v))
+            for clause, lst in by_clause.items():
+                ok = False
+                for rec, v in lst[:8]:
+                    path = write_replay(pid, rec["seed"], rec["index"], tier, rec["scenario"], clause, v["detail"], rec.get("digest", ""), v.get("facts"), None)
+                    rc, txt = fresh_process_replay(pid, path)
+                    if rc == 1:
+                        n_viol += 1
+                        print(f"violation clause={clause} run_index={rec['index']} seed={rec['seed']} (unminimised: in-process minimisation is "
+                              f"unreliable while state leaks between runs)")
+                        print(f"  detail: {v['detail'][:600]}")
+                        print(f"VIOLATION property={pid} replay={path}")
+                        exit_code = 1
+                        ok = True
+                        break
+                if ok and n_viol >= 3:
+                    break
+            unknown = []
+            if exit_code == 0:
+                exit_code = 2
         for rec, v in unknown:
             if v["clause"] in seen:
                 continue
